@@ -1,12 +1,17 @@
 (* Properties_C11.v - every executed step is accounted for; lock, hook and report follow the run.
-   Same transition system as C04, extended with what step_exec_job writes to the
-   step file and with the hook calls; [trap_exit] models the exit handler.
-   PARTIAL: log file contents, the mail transport and the lock file are observed
-   end to end by the harness; the lock/second-invocation logic is a small separate
-   model of lock_acquire / trap_exit. *)
+   Same transition system as C04 (OrchDefs.v) with what step_exec_job writes to the step file and the hook
+   calls; [trap_exit] models the exit handler; Orch/RunLock.v is ONE model of lock_acquire / lock_release /
+   build_init / the exit trap for the invocation that runs and for every invocation started meanwhile.
+   The property-shaped checker OrchSpec.spec_ok_account (the oracle the harness applies to real canvas runs)
+   is PROVED to accept what every ended run of the model leaves behind.
+   NOT MODELLED (observed end to end by the harness): the content of log files, the mail transport, the
+   duration field.  ASSUMED: lock_acquire is atomic.  The shapes of trap_exit, lock_acquire, lock_release in
+   util.sh are pinned by harness/t_orch.py (gen/Gen_Orch.v). *)
 From Robsd Require Import Orch.OrchSpec Orch.OrchProofs Orch.AccountProofs Orch.ResumeProofs Orch.ResumeSpec Orch.StepBridge.
+From Robsd Require Import Orch.OrchSteps Orch.TraceMeaning Orch.TraceOracle Orch.AccountOracle Orch.FreshFile Orch.RunLock Orch.RunLockProofs
+  Orch.Statements Orch.ModelShape.
 From Robsd Require Import Step.StepSpec Step.StepRows Step.StepWrite Step.StepLex Base.DecimalProofs.
-From RobsdGen Require Import Gen_Step.
+From RobsdGen Require Import Gen_Step Gen_Orch.
 Local Open Scope Z_scope.
 
 (* each step that ran and finished has exactly one record, carrying its real
@@ -45,26 +50,89 @@ Theorem C11_hook_once_per_step : forall ncpu exit_of name_of steps f0,
 Proof. exact hook_once_per_step. Qed.
 Print Assumptions C11_hook_once_per_step.
 
-(* skipped steps never run (C04_start_conditions) and keep their skip record: a
-   step that was not started keeps its initial record *)
+(* skipped steps: in every reachable state of a fresh invocation a step whose name is in the skip set was never
+   started, its record is still the skip record canvas wrote (exit 0, skip 1), and no hook was called for it *)
+Theorem C11_skipped_steps_never_run_keep_record : forall ncpu exit_of name_of steps skip,
+  wf_cfg exit_of name_of steps -> fresh_ok steps skip ->
+  forall s p, oreach ncpu exit_of name_of steps (skip_file steps skip) s -> In p steps -> In (p_name p) skip ->
+  ~ started s (p_id p) /\ lookup (sfile_ s) (p_id p) = Some (mkrow (p_id p) (p_name p) 0 1) /\
+  (forall e, ~ In (p_name p, e) (hooks (evlog s))).
+Proof. exact F_skipped_never_run. Qed.
+Print Assumptions C11_skipped_steps_never_run_keep_record.
 
-(* a report exists exactly when the build has steps and a step failed (non-zero
-   exit of the invocation) or end was reached; it is mailed exactly when detached;
-   the end hook runs exactly when end was recorded *)
-Theorem C11_report_iff_failed_or_end : forall m f d,
-  e_report (trap_exit m f d) = has_steps f && (negb (match m with ODone => true | _ => false end) || has_end f) /\
-  e_mail (trap_exit m f d) = e_report (trap_exit m f d) && d /\
-  (e_status (trap_exit m f d) = 0 <-> m = ODone).
-Proof. exact report_decision. Qed.
-Print Assumptions C11_report_iff_failed_or_end.
+(* the report decision IN TERMS OF THE RECORDS: when the invocation has ended a report exists exactly when the
+   build has steps and (some record of a step that is not skipped carries a non-zero status, or an end record
+   exists); it is mailed exactly when detached; the end hook runs exactly when end was recorded; the exit status
+   is 0 exactly when end was recorded and non-zero exactly when a started synchronous step finished with a
+   non-zero status (replaces the definitional C11_report_iff_failed_or_end) *)
+Theorem C11_report_iff_failing_record_or_end : forall ncpu exit_of name_of steps skip,
+  wf_cfg exit_of name_of steps -> fresh_ok steps skip ->
+  forall s d, oreach ncpu exit_of name_of steps (skip_file steps skip) s -> terminal s ->
+  e_report (trap_exit (mode s) (sfile_ s) d) = has_steps (sfile_ s) && (failing_record (sfile_ s) || has_end (sfile_ s)) /\
+  e_mail (trap_exit (mode s) (sfile_ s) d) = e_report (trap_exit (mode s) (sfile_ s) d) && d /\
+  e_endhook (trap_exit (mode s) (sfile_ s) d) = has_end (sfile_ s) /\
+  (e_status (trap_exit (mode s) (sfile_ s) d) = 0 <-> has_end (sfile_ s) = true) /\
+  (e_status (trap_exit (mode s) (sfile_ s) d) <> 0 <->
+     exists i, In (EStart i false) (evlog s) /\ In (EFinish i (exit_of i)) (evlog s) /\ exit_of i <> 0).
+Proof. exact F_report_decision. Qed.
+Print Assumptions C11_report_iff_failing_record_or_end.
 
-(* a second invocation started while another holds the lock is refused with a
-   non-zero status and leaves the lock and every build directory as they were *)
-Theorem C11_second_invocation_refused_untouched : forall w owner b,
-  w_lock w = Some owner -> owner <> [] -> owner <> b ->
-  second_invocation w b = (w, 1, false).
-Proof. exact second_invocation_refused. Qed.
-Print Assumptions C11_second_invocation_refused_untouched.
+(* what happens when ONLY a parallel step failed and end is reached: exit status 0, a report exists, and the
+   failing record is in the step file (robsd does the same: harness lane "parallel-failure-exit") *)
+Theorem C11_parallel_failure_alone_exits_zero : forall ncpu exit_of name_of steps skip,
+  wf_cfg exit_of name_of steps -> fresh_ok steps skip ->
+  forall s d i, oreach ncpu exit_of name_of steps (skip_file steps skip) s ->
+  mode s = ODone -> In (EStart i true) (evlog s) -> exit_of i <> 0 ->
+  e_status (trap_exit (mode s) (sfile_ s) d) = 0 /\ e_report (trap_exit (mode s) (sfile_ s) d) = true /\
+  lookup (sfile_ s) i = Some (mkrow i (name_of i) (exit_of i) 0) /\ failing_record (sfile_ s) = true.
+Proof. exact F_parallel_failure_exit_zero. Qed.
+Print Assumptions C11_parallel_failure_alone_exits_zero.
+
+(* the accounting oracle (one record per executed step with its real status, its log, one hook call; skip
+   records for the skipped, no hook; nothing in flight, no stray record; one hook per executed step plus the end
+   hook exactly when end was recorded; report and mail) accepts what EVERY ended fresh run leaves behind.
+   The log bits are "fine" by fiat (no log content in the model) and the two lock bits are parameters here;
+   C11_invocation_accounted takes them from the lock model *)
+Theorem C11_accounting_oracle_accepts_every_ended_run : forall ncpu exit_of name_of steps skip,
+  wf_cfg exit_of name_of steps -> fresh_ok steps skip ->
+  (forall p, In p steps -> p_exit p <> -1) ->
+  forall s d, oreach ncpu exit_of name_of steps (skip_file steps skip) s -> terminal s ->
+  spec_ok_account steps skip (executed name_of s) (leftovers_of s d true false) = true.
+Proof. exact F_account_oracle. Qed.
+Print Assumptions C11_accounting_oracle_accepts_every_ended_run.
+
+(* the whole invocation - build_init, lock_acquire, the run interleaved IN ANY WAY with other invocations being
+   started (any names other than its own, prefix-related or not), the exit trap: it gets the lock; the
+   orchestrator's state is a reachable state of the plain model (nobody touched it); at every point of the run
+   the lock names it; afterwards the lock is gone; every other invocation was refused with status 1; and when
+   the run has ended the accounting oracle accepts the leftovers with the lock bits this model computed *)
+Theorem C11_invocation_accounted : forall ncpu exit_of name_of steps skip,
+  wf_cfg exit_of name_of steps -> fresh_ok steps skip ->
+  forall b w l d,
+  (forall p, In p steps -> p_exit p <> -1) ->
+  b <> [] -> lock_free_for (iw_lock w) b -> (forall b' d', In (WOther b' d') l -> b' <> b) ->
+  exists ws w2 st,
+    invocation ncpu exit_of name_of ACQ REL b w steps (skip_file steps skip) l d = Some (ws, w2, st) /\
+    oreach ncpu exit_of name_of steps (skip_file steps skip) (ws_orch ws) /\
+    (forall l1 l2, l = l1 ++ l2 ->
+       lock_names b (iw_lock (ws_world (wrun ncpu exit_of name_of ACQ REL b
+                                          (mkwstate (begun b w (skip_file steps skip)) (oinit steps (skip_file steps skip)) []) l1))) = true) /\
+    lock_present (iw_lock w2) = false /\
+    ws_refused ws = map (fun x => (x, Some 1)) (others l) /\
+    (terminal (ws_orch ws) ->
+       st = e_status (trap_exit (mode (ws_orch ws)) (sfile_ (ws_orch ws)) d) /\
+       spec_ok_account steps skip (executed name_of (ws_orch ws))
+         (leftovers_of (ws_orch ws) d (lock_names b (iw_lock (ws_world ws))) (lock_present (iw_lock w2))) = true).
+Proof. exact F_invocation_accounted. Qed.
+Print Assumptions C11_invocation_accounted.
+
+(* with a substring ownership test (grep -F, a seeded change) the refused invocation of a name that is a prefix
+   of the owner's removes the owner's lock: why the test is pinned *)
+Theorem C11_substring_release_breaks_refusal :
+  exists w o b', iw_lock w = Some o /\ o <> [] /\ o <> b' /\
+    iw_lock (fst (attempt ACQ RelFixedSubstring w b' false)) = None.
+Proof. exact substring_release_breaks_refusal. Qed.
+Print Assumptions C11_substring_release_breaks_refusal.
 
 Example C11_example :
   let n := fun c => [c]%N in
@@ -74,14 +142,18 @@ Example C11_example :
   let sched := [AMain; AJob 1; AJob 1; AMain; AMain; AJob 2; AJob 2; AMain; AMain] in
   let s := orun 2 ex nm (oinit steps []) sched in
   mode s = ODone /\ hooks (evlog s) = [(n 97%N, 0); (n 112%N, 3)] /\
+  final_hooks s true = [(n 97%N, 0); (n 112%N, 3); (END, 0)] /\
   sfile_ s = [mkrow 1 (n 97%N) 0 0; mkrow 2 (n 112%N) 3 0; mkrow 3 END 0 0] /\
-  e_report (trap_exit (mode s) (sfile_ s) true) = true.
+  e_report (trap_exit (mode s) (sfile_ s) true) = true /\ e_status (trap_exit (mode s) (sfile_ s) true) = 0 /\
+  spec_ok_account steps [] (executed nm s) (leftovers_of s true true false) = true.
 Proof. vm_compute. repeat split; reflexivity. Qed.
 
-(* the record the orchestrator writes through util.sh step_write / robsd-step -W denotes, in the
-   dictionary specification of the step file (C01), exactly one ordered upsert of the row
+(* ---- the record writes are the step file writes of C01 ------------------------------------------------------ *)
+
+(* the record the orchestrator writes through util.sh step_write / robsd-step -W for a step that has no record
+   yet denotes, in the dictionary specification of the step file (C01), exactly one ordered upsert of the row
    (id, name, exit, skip) - which is how the transition system above models a record write *)
-Theorem C11_record_write_is_row_upsert : forall (s : astate) id name exit duration delta log user time skip,
+Theorem C11_record_write_is_row_insert : forall (s : astate) id name exit duration delta log user time skip,
   alist_find id s = None ->
   (id_min <= id <= id_max) -> id <> 0 ->
   i64 exit -> i64 duration -> i64 delta -> i64 time -> i64 skip ->
@@ -92,4 +164,67 @@ Theorem C11_record_write_is_row_upsert : forall (s : astate) id name exit durati
             = Some (alist_put id r s) /\
             map proj_row (alist_put id r s) = upsert (mkrow id name exit skip) (map proj_row s).
 Proof. exact step_write_row_upsert. Qed.
-Print Assumptions C11_record_write_is_row_upsert.
+Print Assumptions C11_record_write_is_row_insert.
+
+(* the UPDATE case - the completion record of step_exec_job (every key but time passed again): on an existing
+   record the write is accepted, replaces the orchestrator's row, and KEEPS the field that is not passed (the
+   start time written with the in-flight record) *)
+Theorem C11_completion_write_updates_row : forall (s : astate) id r0 tm name exit duration delta log user skip,
+  alist_find id s = Some r0 ->
+  length r0 = 9%nat -> nth_error r0 0 = Some (Some (VInt id)) -> nth_error r0 7 = Some (Some tm) ->
+  (id_min <= id <= id_max) -> id <> 0 -> log <> [] ->
+  i64 exit -> i64 duration -> i64 delta -> i64 skip ->
+  representable (nth 1 fields (mkfdef [] FStr 1%nat false [])) name = true ->
+  representable (nth 5 fields (mkfdef [] FStr 5%nat true [])) log = true ->
+  representable (nth 6 fields (mkfdef [] FStr 6%nat false [])) user = true ->
+  exists r, spec_write s (render_Z id) (step_write_kvs name exit duration delta log user None skip) = Some (alist_put id r s) /\
+            proj_row (id, r) = mkrow id name exit skip /\
+            nth_error r 7 = Some (Some tm) /\
+            nth_error r 0 = Some (Some (VInt id)) /\ length r = 9%nat /\
+            map proj_row (alist_put id r s) = upsert (mkrow id name exit skip) (map proj_row s).
+Proof. exact step_write_update_row. Qed.
+Print Assumptions C11_completion_write_updates_row.
+
+(* step_exec_job's two writes in sequence on the dictionary are the two upserts of OrchDefs.job_step *)
+Theorem C11_step_exec_job_two_writes : forall (s : astate) id name log user time exit duration delta,
+  alist_find id s = None ->
+  (id_min <= id <= id_max) -> id <> 0 -> log <> [] ->
+  i64 exit -> i64 duration -> i64 delta -> i64 time ->
+  representable (nth 1 fields (mkfdef [] FStr 1%nat false [])) name = true ->
+  representable (nth 5 fields (mkfdef [] FStr 5%nat true [])) log = true ->
+  representable (nth 6 fields (mkfdef [] FStr 6%nat false [])) user = true ->
+  exists r1 r2,
+    spec_write s (render_Z id) (step_write_kvs name (-1) (-1) 0 log user (Some time) 0) = Some (alist_put id r1 s) /\
+    spec_write (alist_put id r1 s) (render_Z id) (step_write_kvs name exit duration delta log user None 0)
+      = Some (alist_put id r2 (alist_put id r1 s)) /\
+    map proj_row (alist_put id r1 s) = upsert (mkrow id name (-1) 0) (map proj_row s) /\
+    map proj_row (alist_put id r2 (alist_put id r1 s)) = upsert (mkrow id name exit 0) (upsert (mkrow id name (-1) 0) (map proj_row s)) /\
+    nth_error r2 7 = Some (Some (VInt time)).
+Proof. exact step_exec_job_two_writes. Qed.
+Print Assumptions C11_step_exec_job_two_writes.
+
+(* ---- the tie to util.sh (last, so that a change of util.sh to a known variant leaves everything above standing) ---- *)
+
+(* the loop, step_exec_job, trap_exit, lock_acquire and lock_release as found in util.sh are the modelled ones *)
+Theorem C11_exit_trap_and_lock_are_the_modelled_ones :
+  robsd_loop = modelled_loop /\ trap_exit_shape = modelled_exit /\ step_exec_job_shape = modelled_job /\
+  lock_acquire_test = ACQ /\ lock_release_test = REL.
+Proof. exact (conj (eq_refl modelled_loop) (conj (eq_refl modelled_exit) (conj (eq_refl modelled_job) (conj (eq_refl ACQ) (eq_refl REL))))). Qed.
+Print Assumptions C11_exit_trap_and_lock_are_the_modelled_ones.
+
+(* an invocation started while another holds the lock - for EVERY pair of build directory names, e.g. DATE.1
+   while DATE.10 runs - ends with status 1, leaves the lock naming the owner, leaves every build directory but
+   its own as it was, and its own directory is removed when it has no steps (a fresh one) and kept otherwise (an
+   older one resumed).  Stated for the tests harness/t_orch.py found in lock_acquire / lock_release
+   (replaces the definitional C11_second_invocation_refused_untouched) *)
+Theorem C11_second_invocation_refused_untouched : forall w o b' d',
+  iw_lock w = Some o -> o <> [] -> o <> b' ->
+  exists w', attempt lock_acquire_test lock_release_test w b' d' = (w', Some 1) /\
+    iw_lock w' = Some o /\
+    (forall x, x <> b' -> dir_find (iw_dirs w') x = dir_find (iw_dirs w) x) /\
+    dir_find (iw_dirs w') b' = match dir_find (iw_dirs w) b' with
+                               | Some f => if has_steps f then Some f else None
+                               | None => None
+                               end.
+Proof. exact (fun w o b' d' => attempt_refused_untouched_for lock_acquire_test lock_release_test w o b' d' (eq_refl ACQ) (eq_refl REL)). Qed.
+Print Assumptions C11_second_invocation_refused_untouched.
